@@ -3,6 +3,8 @@ use crate::mon::Ctx;
 pub mod c01;
 pub mod c03;
 pub mod c04;
+pub mod c05;
+pub mod c06;
 pub mod c13;
 pub mod c14;
 
@@ -11,6 +13,8 @@ pub fn run(ctx: &mut Ctx) -> bool {
         "C01" => c01::run(ctx),
         "C03" => c03::run(ctx),
         "C04" => c04::run(ctx),
+        "C05" => c05::run(ctx),
+        "C06" => c06::run(ctx),
         "C13" => c13::run(ctx),
         "C14" => c14::run(ctx),
         _ => return false,
